@@ -1,6 +1,7 @@
 //! `merkle` engine — trees on a faulty node store (C11; C12–C14 in smt.rs).
 pub mod bmt;
 pub mod simkv;
+pub mod smt;
 
 use crate::kernel::*;
 
@@ -37,4 +38,56 @@ pub static BMT: EngineDef = EngineDef {
     summarize: summarize_erased::<bmt::Bmt>,
     describe: bmt_describe,
     runs: |_| (60_000, 1_500_000),
+};
+
+fn smt_describe(prop: &str) -> EngineDescription {
+    let (rule, measure) = match prop {
+        "C12" => (
+            "Seeded histories (2–32 ops) of insert (new / overwrite same / overwrite different / empty value) and delete (present / absent / twice) over a pool of 2–12 adversarially clustered keys (shared prefixes of 0–255 bits, last-bit siblings, all-zero, all-one, hashed), on sparse::MerkleTree over SimKV and sparse::in_memory::MerkleTree; store I/O errors inside operations (rollback to the pre-operation snapshot, reload, retry). After every op the root is compared with the compact-SMT reference over the model map; from_set / root_from_set / nodes_from_set / storage from_set over the shuffled map (with duplicates) are compared at seeded points and at the end. Non-trivial: at least one delete that orphans a leaf (collapse) and a key pair with a common prefix ≥ 64 bits; distinct = distinct digests of (step, root) sequences.",
+            "distinct (step, root) event digests of non-trivial runs",
+        ),
+        "C13" => (
+            "The C12 histories (≤ 16 ops quick, ≤ 24 thorough) with every completed op committed as one batch. Restart from persisted nodes at EVERY point i: store view cloned, MerkleTree::load at root_i, generate_proof for every pool key and absent key compared with the original tree's and with the map-derived reference proof, then the next 3 ops (the whole remaining history at seeded points) replayed on the reloaded tree with roots compared after each. Faults: I/O error (rollback/reload/retry), crash with atomic loss (reload at pre-op root must equal the pre-op tree), crash with an arbitrary surviving subset of the op's inserts/removes and lost durable nodes (fail-stop oracle: load fails, or every later result is an error or equals the model's). Also nodes_from_set → empty store → load, and load at the empty root. Non-trivial: a restart directly after a delete-collapse or an overwrite with ≥ 2 further ops.",
+            "distinct digests over (step, root) and (restart point, continued root) events",
+        ),
+        _ => (
+            "Trees reached by C12-style histories (a quarter rebuilt with from_set); honest proofs for every pool key and absent key (absent keys share long prefixes with present ones): is_inclusion ⇔ present, proof equals the map-derived reference, inclusion verifies with the stored value and with none of 24 other values, exclusion verifies for the absent key and for no present key. 2–6 queries per run ship the proof through a corrupting channel (bit flip, drop, duplicate, swap, truncate, extend to 255–258, other key, other value, leaf rewritten to claim the key, terminal swap, kind flip, stale root): library verdict must equal an independent compact-tree recomputation, and any accepted statement must be true of the map. Non-trivial: tree reached through a delete, an exclusion proof whose terminal leaf shares ≥ 8 bits with the query, and ≥ 1 corrupted tuple.",
+            "distinct digests over (proof kind, length) and (library verdict, reference verdict) events",
+        ),
+    };
+    EngineDescription {
+        rule: rule.into(),
+        real_components: vec![
+            "fuel_merkle::sparse::MerkleTree (new, load, insert, delete, from_set, generate_proof, root)".into(),
+            "fuel_merkle::sparse::in_memory::MerkleTree (update, delete, from_set, root_from_set, nodes_from_set)".into(),
+            "fuel_merkle::sparse::proof::{InclusionProof, ExclusionProof}::verify".into(),
+        ],
+        stub_components: vec![
+            "SimKV node store (durable map + un-flushed buffer, failing calls, crash with partial survival, lost nodes)".into(),
+            "restart supervisor".into(),
+            "compact-SMT reference (models::smt: root, prove, verify)".into(),
+        ],
+        assumptions: vec![
+            "Each completed tree operation is persisted as one atomic batch (as an embedder's storage transaction does).".into(),
+            "SHA-256 collision resistance (a verifier accepting a false statement is treated as a defect, not as a collision).".into(),
+            "Raw (unhashed) 32-byte keys via MerkleTreeKey::new_without_hash (test-helpers) so that prefixes can be clustered.".into(),
+        ],
+        distinct_state_measure: measure.into(),
+        simulated_time_keys: vec!["tree_ops".into(), "restarts".into(), "proofs".into(), "set_constructions".into()],
+    }
+}
+
+pub static SMT: EngineDef = EngineDef {
+    name: "merkle-sparse",
+    props: &["C12", "C13", "C14"],
+    generate: gen_erased::<smt::Smt>,
+    run: run_erased::<smt::Smt>,
+    shrink: shrink_erased::<smt::Smt>,
+    summarize: summarize_erased::<smt::Smt>,
+    describe: smt_describe,
+    runs: |p| match p {
+        "C12" => (60_000, 1_500_000),
+        "C13" => (20_000, 400_000),
+        _ => (60_000, 1_500_000),
+    },
 };
